@@ -5,7 +5,6 @@ import (
 	"fmt"
 	"reflect"
 
-	"github.com/davecgh/go-spew/spew"
 	"github.com/veraison/psatoken"
 
 	"verif/harness/extprof"
@@ -14,14 +13,15 @@ import (
 	"verif/harness/mon"
 	"verif/harness/obs"
 	"verif/harness/refcbor"
+	"verif/harness/refcose"
 )
 
 func init() { register("C18", runC18) }
 
-var snapCfg = spew.ConfigState{Indent: " ", DisablePointerAddresses: true, DisableCapacities: true, SortKeys: true, DisableMethods: true, DisablePointerMethods: true}
-
-// deepSnapshot renders every reachable field (exported or not) of the object.
-func deepSnapshot(v any) string { return snapCfg.Sdump(v) }
+// deepSnapshot renders every reachable field (exported or not) of the object;
+// map entries in a canonical order whatever the key type (the COSE header maps
+// are keyed by interface values, which go-spew leaves in iteration order).
+func deepSnapshot(v any) string { return mon.DeepDump(v) }
 
 type c18Call struct {
 	name string
@@ -95,7 +95,7 @@ func c18Calls(x psatoken.IClaims, ev *psatoken.Evidence, pks []crypto.PublicKey)
 	if ev != nil {
 		for i, pk := range pks {
 			pk := pk
-			l = append(l, c18Call{fmt.Sprintf("Evidence.Verify(key %d)", i), func() string { return fmt.Sprint(ev.Verify(pk) == nil) }})
+			l = append(l, c18Call{fmt.Sprintf("Evidence.Verify(key %d)", i), func() string { return errText(ev.Verify(pk)) }})
 		}
 		l = append(l,
 			c18Call{"Evidence.GetInstanceID", func() string { return fmt.Sprintf("%x", derefB(ev.GetInstanceID())) }},
@@ -114,7 +114,7 @@ func errText(e error) string {
 }
 
 func runC18(c *mon.Ctx) {
-	c.Rule("objects: valid and rule-breaking claims-sets of both profiles and the P2 extension built by direct assignment / by setters / by decoding CBOR (incl. C04's type-breaking and open-encoding tokens that still decode) / by decoding JSON, and Evidence obtained by decoding COSE and by signing. On each object a random sequence of 1..30 read-side calls (Validate, the 10 getters, component getters, CBOR/JSON encoding validating and not, generic ValidateClaims, SetClaims of the object on ANOTHER Evidence, the component container's own Validate / Values / IsEmpty / MarshalCBOR / MarshalJSON and each component's Validate; on Evidence: Verify with right / wrong / nil key, GetInstanceID, GetImplementationID, MarshalJSON), every call issued twice. Oracle: (1) the two results of each call are identical (encodings byte-identical); (2) a deep snapshot (go-spew dump of every exported and unexported field reachable from the object, pointer addresses and capacities masked; for Evidence including the hidden COSE message) is identical before and after the sequence; (2b) the raw CBOR / JSON encodings handed out for an object, and the Verify outcome of an Evidence, are kept and re-checked after six further objects were processed; (3) decode-from-buffer cases: after the decode the caller's buffer is overwritten with 0x00, 0xFF and random bytes - deep snapshot, every getter result and the Verify outcomes must not change. distinct_nontrivial = distinct (object kind, route, validity class, first calls) signatures")
+	c.Rule("objects: valid and rule-breaking claims-sets of both profiles and the P2 extension built by direct assignment / by setters / by decoding CBOR (incl. C04's type-breaking and open-encoding tokens that still decode) / by decoding JSON, and Evidence obtained by decoding COSE (also messages with an unusual header layout: empty protected header, empty-map protected header, algorithm only in the unprotected header, algorithm as text, further labels, no algorithm but other labels) and by signing. On each object a random sequence of 1..30 read-side calls (Validate, the 10 getters, component getters, CBOR/JSON encoding validating and not, generic ValidateClaims, SetClaims of the object on ANOTHER Evidence, the component container's own Validate / Values / IsEmpty / MarshalCBOR / MarshalJSON and each component's Validate; on Evidence: Verify with right / wrong / nil key, GetInstanceID, GetImplementationID, MarshalJSON), every call issued twice. Oracle: (1) the two results of each call are identical (encodings byte-identical); (2) a deep snapshot (reflective dump of every exported and unexported field reachable from the object, pointer addresses and capacities left out, map entries in canonical order; for Evidence including the hidden COSE message) is identical before and after the sequence; (2b) the raw CBOR / JSON encodings handed out for an object, and the Verify outcome of an Evidence, are kept and re-checked after six further objects were processed; (3) decode-from-buffer cases: after the decode the caller's buffer is overwritten with 0x00, 0xFF and random bytes - deep snapshot, every getter result and the Verify outcomes must not change. distinct_nontrivial = distinct (object kind, route, validity class, first calls) signatures")
 	if err := extprof.Register(extprof.ExtP2Name); err != nil {
 		c.Violation("harness/register", err.Error(), nil)
 		return
@@ -195,6 +195,30 @@ func runC18(c *mon.Ctx) {
 				}
 				if buf, err = (&psatoken.Evidence{Claims: y}).Sign(k.Signer); err != nil {
 					return
+				}
+				if g.R.Intn(3) == 0 {
+					// the same message with an unusual header layout (whatever of these
+					// the decoder accepts is an Evidence like any other: reading it,
+					// verifying it under several keys, must not change it)
+					if env, perr := refcose.Parse(buf); perr == nil {
+						v := g.R.Intn(6)
+						route = fmt.Sprintf("evidence-decoded-cose-header-variant-%d", v)
+						algNode := refcbor.I(-7)
+						switch v {
+						case 0: // empty protected header
+							buf = sign1Bytes(nil, nil, env.Payload, env.Signature)
+						case 1: // protected header = empty map
+							buf = sign1Bytes([]byte{0xa0}, nil, env.Payload, env.Signature)
+						case 2: // algorithm only in the unprotected header
+							buf = sign1Bytes(nil, refcbor.MapOf(refcbor.I(1), algNode), env.Payload, env.Signature)
+						case 3: // algorithm as text
+							buf = sign1Bytes(refcbor.Encode(refcbor.MapOf(refcbor.I(1), refcbor.Tstr("ES256"))), nil, env.Payload, env.Signature)
+						case 4: // further labels next to the algorithm
+							buf = sign1Bytes(refcbor.Encode(refcbor.MapOf(refcbor.I(1), algNode, refcbor.I(4), refcbor.Bstr([]byte("kid")), refcbor.I(3), refcbor.Tstr("application/eat-cwt"))), refcbor.MapOf(refcbor.I(4), refcbor.Bstr([]byte("kid2"))), env.Payload, env.Signature)
+						default: // protected header without algorithm but with other labels
+							buf = sign1Bytes(refcbor.Encode(refcbor.MapOf(refcbor.I(4), refcbor.Bstr([]byte("kid")))), nil, env.Payload, env.Signature)
+						}
+					}
 				}
 				if ev, err = psatoken.DecodeEvidenceFromCOSE(buf); err == nil {
 					x = ev.Claims
